@@ -46,6 +46,11 @@ type GS[T any] struct{}
 
 type E interface{}
 
+// a parameter spelled like the mock type moq generates for A
+type W interface {
+	Attach(AMock int, other string)
+}
+
 type Num interface{ ~int | ~float64 }
 
 type Cmp interface{ comparable }
@@ -279,6 +284,13 @@ func e5Cases(thorough bool) []e5Case {
 			}
 		}
 	}
+	// invoked from the module root with a relative source directory and a relative -out
+	for _, fl := range flagSets[:2] {
+		for _, rm := range []bool{false, true} {
+			out = append(out, e5Case{Desc: "from module root", Version: 1, OutMode: "from-root", Rm: rm, Flags: append(append([]string{}, fl...), "-pkg", "gen"), SrcDir: "./s/cli", Ifaces: []string{"A", "B"}, ExpectFail: false})
+			out = append(out, e5Case{Desc: "from module root, bad argument", Version: 1, OutMode: "from-root", Rm: rm, Flags: fl, SrcDir: "./s/cli", Ifaces: []string{"A", "Nope"}, ExpectFail: true, Why: "unknown type name"})
+		}
+	}
 	// stdout is /dev/full
 	for _, fl := range flagSets {
 		out = append(out, e5Case{Desc: "standard output is not writable", Version: 1, OutMode: "", Flags: fl, SrcDir: ".", Ifaces: []string{"A"}, ExpectFail: true, StdoutFull: true, Why: "stdout not writable"})
@@ -318,6 +330,9 @@ func (c *e5Case) prepare(sb *e5Sandbox) (outArg string, outAbs string) {
 	case "dir-nonempty":
 		outArg = "outdir"
 		writeFile(filepath.Join(sb.pkg, outArg, "keep.txt"), "keep")
+	case "from-root":
+		outArg = filepath.Join("gen", "m_moq.go")
+		return outArg, filepath.Join(sb.root, outArg)
 	case "devfull":
 		return "/dev/full", "/dev/full"
 	}
